@@ -370,6 +370,9 @@ def facts_of(R):
     # drain_queue, job returned Pending: the queue state is written (WaitingForWake / WaitingForPoll) BEFORE the deferred wake-up is
     # released with wake_with - a wake-up that arrived during the poll then finds the parked state, not Running
     F['drain_queue_parks_before_wake_with'] = bool(re.search(r'\.state\s*=\s*QueueState::WaitingForWake\s*;(?:(?!\.state\s*=).)*?waker\.wake_with\(queue_waker\)\s*;(?:(?!wake_with).)*?\.state\s*=\s*QueueState::WaitingForPoll\(self\.id\)\s*;(?:(?!\.state\s*=).)*?waker\.wake_with\(wake_both\)\s*;', dqf, flags=re.S)) and count(r'wake_with\(', dqf) == 2
+    # the wakers keep their queue alive (a strong Arc): a suspended operation whose future and queue handle were dropped still runs when woken
+    wqs = strip_comments(open(S + 'wake_queue.rs').read()); wts = strip_comments(open(S + 'wake_thread.rs').read())
+    F['wakers_hold_queue_strongly'] = bool(re.search(r'struct\s+WakeQueue\s*\(\s*pub\s*\(super\)\s*Arc<JobQueue>\s*,', wqs)) and bool(re.search(r'struct\s+WakeThread\s*\(\s*pub\s*\(super\)\s*Arc<JobQueue>\s*,', wts))
     # WakeThread: the thread is unparked whatever state the queue was found in (a stale waker of another thread must not swallow the wake-up)
     wtf = find_fn(strip_comments(open(S + 'wake_thread.rs').read()), 'wake_by_ref', 'fact:wake_thread')
     F['wake_thread_unparks_always'] = bool(re.search(r'match\s+queue_core\.state\s*\{[^{}]*\}\s*\}\s*thread\.unpark\(\)\s*;\s*\}\s*$', wtf)) and count(r'unpark\(\)', wtf) == 1 and count(r'\breturn\b', wtf) == 0
